@@ -68,7 +68,7 @@ PROPS = {
             "explanation": "Static audit of every potential panic site (MIR Assert terminators and calls to panicking library functions) in all bodies reachable in the resolved call graph from the public search API. Each site is discharged by dominating guards (difference-constraint prover over branch facts with a field-sensitive kill check), by a required guard named in the audit table, or by a hand-confirmed invariant entry; anything else is a violation. Decides the 'never panics / offsets valid' clause structurally; audited invariants are the trusted base."},
     "C06": {"fn": c06, "level": "other",
             "technique": "MIR panic-site audit over the compile-time call graph + integer taint to arithmetic/allocation sinks + call-graph cycle/depth-guard analysis",
-            "claim": "Every potential panic site reachable from Regex::new / RegexBuilder::build / Expr::parse_tree / Expr::to_str / Error Display is enumerated and discharged as for C05; pattern-derived integers must be bounded before unchecked arithmetic or allocation sizes; every recursive cycle is cut by the MAX_RECURSION guard or structural descent. Time/memory proportionality as a number is not decided.",
+            "claim": "Every potential panic site reachable from Regex::new / RegexBuilder::build / Expr::parse_tree / Expr::to_str / Error Display is enumerated and discharged as for C05; pattern-derived integers must be bounded before unchecked arithmetic or allocation sizes; every recursive cycle is cut by the MAX_RECURSION guard or structural descent; the audited unreachability of to_str's `panic!` rests on three rules decided here as well: every Expr variant is printed or unconditionally hard, hardness is inherited from every child, only easy sub-trees are delegated. Time/memory proportionality as a number is not decided.",
             "note": "Trusted: class-3 audit entries, A-OFFSET, dependency contracts (regex-automata build limits, bit-set growth = max element), rustc as fact source.",
             "explanation": "Same panic-site audit over all bodies reachable from Regex::new / RegexBuilder::build / Expr::parse_tree / Expr::to_str / Error Display, plus TAINT (pattern-derived integers must be bounded before arithmetic or allocation) and REC (every call-graph cycle cut by the depth guard or structural descent)."},
 }
@@ -412,6 +412,11 @@ def c06(run, ctx):
     fam_taint.error_mapping(run, ctx)
     fam_enc.printable_rule(run, ctx)
     fam_tmpl.compile_repeat(run, ctx)
+    # to_str's `panic!("attempting to format hard expr")` is audited as unreachable because only non-hard sub-trees are
+    # re-serialised: that needs hardness to be inherited from every child (the analyser's transfer function) and the
+    # compiler to delegate only what the analysis calls easy
+    fam_xfer.analyzer_rule(run, ctx)
+    fam_tmpl.visit_delegation_gate(run, ctx)
 
 
 def c07(run, ctx):
